@@ -178,14 +178,23 @@ def byte_scan(rep, u):
     n = 0
     bad = None
     undec = None
+    # scan state kept between bytes (flags such as "inside the field name"): every valuation is evaluated; the state may
+    # only decide whether HTAB ':' is refused (htab_name_rule states when it must be)
+    state = sorted({r["n"] for b in body for e in fn.blocks[b].elems for r in core.refs(e)
+                    if r.get("dk") == "local" and fn.unit.type(r["t"])["k"] == "int" and r["n"] not in (cur, endv)})
+    if len(state) > 3:
+        rep.undecided("R-CLASS", fn, "byte-scan", desc, "more than three state variables in the scan loop: %s" % state)
+        return 0
+    import itertools as _it
     for c in range(256):
         nexts = sorted({ord(":"), 10, 65, c})
-        for nx, have_next in [(x, True) for x in nexts] + [(0, False)]:
+        for (nx, have_next), sv in _it.product([(x, True) for x in nexts] + [(0, False)], _it.product((0, 1), repeat=len(state))):
             pe = r_stride.PE(u)
             pe.memory = {P: c}
             if have_next:
                 pe.memory[P + 1] = nx
             bind = {cur: P, endv: P + (2 if have_next else 1), "http_hdr": P}
+            bind.update(dict(zip(state, sv)))
             outs = pe.explore(fn, first, bind, stops={head})
             n += 1
             kinds = set()
@@ -208,6 +217,8 @@ def byte_scan(rep, u):
                 want = ("continue", None)
             else:
                 want = ("ret", 2)
+            if c == 9 and have_next and nx == ord(":") and state and (k0[0], k0[1]) == ("ret", 1):
+                continue                                   # HTAB ':' refused in this scan state
             if (k0[0], k0[1]) != want:
                 bad = bad or "byte 0x%02x followed by %s: %s, expected %s" % (c, ("0x%02x" % nx) if have_next else "the end of the block", k0[:2], want)
     if bad:
@@ -216,6 +227,121 @@ def byte_scan(rep, u):
         rep.undecided("R-CLASS", fn, "byte-scan", desc, undec)
     else:
         rep.proved("R-CLASS", fn, "byte-scan", desc, "%d (byte, next byte) classes evaluated on the loop body" % n)
+    return n
+
+
+def htab_name_rule(rep, u):
+    """whitespace between a field name and its colon is refused for both spellings (SP, HTAB); HTAB ':' inside a field value
+    or on a continuation line is content and passes (the block has none of the listed patterns).  Evaluated by running the
+    scan of http_req_sec_chk over small concrete blocks in the partial evaluator."""
+    fn = need(u, "http_req_sec_chk")
+    loops = fn.loops()
+    head = None
+    for h, body in loops.items():
+        if any(x.get("k") == "un" and x.get("op") == "*" for b in body for e in fn.blocks[b].elems for x, _ in walk(e)):
+            head = h
+    if head is None:
+        raise driver.AnalysisBroken("http_req_sec_chk: scan loop not found")
+    body = loops[head]
+    exits = {s_ for b in body for s_ in fn.blocks[b].rsucc() if s_ not in body and not any(e.get("k") == "ret" for e in fn.blocks[s_].elems)}
+    P = 0x20000
+    n = 0
+    cases = [(b"G / H\r\nA\t: 1", 1, "HTAB between the first field name and its colon"),
+             (b"G / H\r\nA : 1", 1, "SP between the field name and its colon"),
+             (b"G / H\r\nA: b\r\nCd\t:e", 1, "HTAB between a later field name and its colon"),
+             (b"G / H\r\nA: b\r\nCd\t:e\r\nF: g", 1, "HTAB before the colon of a middle field"),
+             (b"G / H\r\nA: b\t:c", 0, "HTAB ':' inside a field value"),
+             (b"G / H\r\nA: b\r\n\t:c", 0, "HTAB ':' on a continuation line"),
+             (b"G / H\r\nA: b\r\n c\t:d", 0, "HTAB ':' later on a continuation line"),
+             (b"G / H\r\nA: b", 0, "plain block")]
+    for blk, want, what in cases:
+        pe = r_stride.PE(u)
+        pe.memory = {P + i: c for i, c in enumerate(blk)}
+        bind = {fn.params[0]["n"]: P, fn.params[1]["n"]: len(blk), fn.params[2]["n"]: 1}
+        outs = pe.explore(fn, fn.entry, bind, stops=exits)
+        n += 1
+        kinds = {(o[0], o[1] if o[0] == "ret" else None, o[2]) for o in outs}
+        inst = "name-colon-whitespace[%s]" % what
+        desc = "http_req_sec_chk: %s is %s" % (what, "refused (rule 1)" if want else "passed by the byte scan")
+        if len(kinds) != 1 or not list(kinds)[0][2]:
+            rep.undecided("R-CLASS", fn, inst, desc, "outcome not determined: %s" % sorted(kinds, key=str)[:3])
+            continue
+        k0 = list(kinds)[0]
+        got = k0[1] if k0[0] == "ret" else 0
+        if got == want:
+            rep.proved("R-CLASS", fn, inst, desc, "scan result %s" % got)
+        elif want:
+            rep.violated("R-CLASS", fn, inst, desc, "the scan passes %r: 'Content-Length HTAB :' is neither refused nor counted by the duplicate rules (the name compared is "
+                         "\"content-length\\t\"), so a second framing field goes through" % blk.decode("latin1"))
+        else:
+            rep.violated("R-CLASS", fn, inst, desc, "the scan returns %s for %r, a block with none of the listed patterns" % (got, blk.decode("latin1")))
+    return n
+
+
+def remove_fold_end_rule(rep, u, fname="http_hdr_val_remove"):
+    """the field to remove includes its continuation lines also when the last of them ends the block without a CRLF: once
+    the search for the next CRLF inside the continuation loop finds nothing, the fallback that looks for a lone LF from the
+    field name on (it would find the LF of the fold itself) must not run.  Decided by exploring the function from the
+    continuation search with its result bound to NULL (partial evaluator, everything else unknown)."""
+    fn = need(u, fname)
+    rep.functions.add(fname)
+    loops = fn.loops()
+    crlf = []
+    for pos, root, c, ps in fn.calls():
+        if (c.get("fn") or "").startswith("mem_find") and any(_str_of(a) == "\r\n" for a in c["args"]):
+            hs = [h for h, b in loops.items() if pos[0] in b]
+            if hs:
+                crlf.append((min(len(loops[h]) for h in hs), pos, c))
+    lf = [pos for pos, root, c, ps in fn.calls() if (c.get("fn") or "").startswith("mem_chr") and any(const_val(a) == 10 for a in c["args"])]
+    if len(crlf) < 2:
+        raise driver.AnalysisBroken("%s: continuation loop with a CRLF search not found" % fname)
+    _sz, pos, call = min(crlf, key=lambda t: t[0])
+    desc = "%s: a folded field whose last continuation line ends the block is removed to the end of the block" % fname
+    if not lf:
+        rep.proved("R-FOLD", fn, "folded-last-field-removed-whole", desc, "no lone-LF fallback in the function")
+        return 1
+    pe = r_stride.PE(u)
+    bind = {key(call): 0}
+    for i, p_ in enumerate(fn.params):
+        bind[p_["n"]] = 0x20000 * (i + 1) if fn.unit.type(p_["t"])["k"] == "ptr" else 64
+    # the end of the field is decided when the removal (memmove) starts: the exploration stays within this field
+    moves = {p_[0] for p_, _r, c_, _ps in fn.calls() if "memmove" in (c_.get("fn") or "")}
+    if not moves:
+        raise driver.AnalysisBroken("%s: removal (memmove) not found" % fname)
+    lfb = {p_[0] for p_ in lf}
+    outs = pe.explore(fn, pos[0], bind, stops=lfb | moves)
+    hit = [o for o in outs if o[0] == "stop" and o[1] in lfb]
+    (rep.violated if hit else rep.proved)("R-FOLD", fn, "folded-last-field-removed-whole", desc,
+                                          "after the continuation search returns NULL the lone-LF search at line %s runs from the field name: it finds the LF of the fold, only the "
+                                          "first physical line is removed and \"\\r\\n evil=1\" is appended to the field before it" % fn.blocks[lf[0][0]].elems[lf[0][1]].get("ln") if hit else
+                                          "outcomes: %s" % sorted({o[0] for o in outs}))
+    return 1
+
+
+def trim_rule(rep, u, fname="skip_spwsp2"):
+    """the trimmed size does not depend on whether the pointer is asked for"""
+    fn = need(u, fname)
+    rep.functions.add(fname)
+    pn = [p_["n"] for p_ in fn.params]
+    n = 0
+    for blk in (b"abc", b"\t  abc  ", b" a", b"a ", b"  ", b" a b "):
+        want = len(blk.strip(b" \t"))
+        res = []
+        for ptr in (0x7000, 0):
+            pe = r_stride.PE(u)
+            pe.memory = {0x20000 + i: c for i, c in enumerate(blk)}
+            ev, ret = pe.trace(fn, {pn[0]: 0x20000, pn[1]: len(blk), pn[2]: ptr, pn[3]: 0x7100})
+            res.append((ret, ev[-1][1].get("*(%s)" % pn[3]) if ev else None))
+        n += 1
+        inst = "trimmed-size[%r]" % blk.decode()
+        desc = "%s(%r): the size is %d with and without the pointer out-parameter" % (fname, blk.decode(), want)
+        if any(isinstance(r_[0], str) or not isinstance(r_[1], int) for r_ in res):
+            rep.undecided("R-TRIM", fn, inst, desc, "not evaluated: %s" % (res,))
+        elif all(r_ == (0, want) for r_ in res):
+            rep.proved("R-TRIM", fn, inst, desc, "")
+        else:
+            rep.violated("R-TRIM", fn, inst, desc, "size %s with the pointer, %s without: the leading blanks are skipped only when the pointer is asked for, so "
+                         "http_hdr_val_get(.., NULL, &size) counts the OWS after the colon" % (res[0][1], res[1][1]))
     return n
 
 
@@ -568,6 +694,9 @@ def run(rep, tier):
     rep.floor("rule-table combinations", rules_section(rep, u, consts), 54)
     rep.floor("byte classes", byte_scan(rep, u), 1000)
     rep.floor("fold byte classes", fold_rule(rep, u), 256)
+    rep.floor("field-name/colon whitespace cases", htab_name_rule(rep, u), 8)
+    remove_fold_end_rule(rep, u)
+    rep.floor("trim cases", trim_rule(rep, u), 6)
     count_rule(rep, u)
     rep.floor("method spellings", method_table(rep, u, consts), 14)
     rep.floor("target component searches", span_rule(rep, u), 2)
